@@ -15,36 +15,34 @@
    (visit_value / visit_item / visit_table_like), `expected_log t` = visit_document's own call
    followed by `hooks_of` of every node in document order.
 
-   Hypothesis `no_inline_placeholder t`: no inline table holds an `Item::None` entry.  The
-   parser never creates one (checked on every generated document by ./check C20: the log of
-   the real visitor contains no visit_item(None) call); `doc["t"]["x"]` on an inline table
-   does, and then `impl TableLike for InlineTable::iter` yields it although it is no
-   key/value pair (C20_visit_placeholder_refuted; same root cause as finding F11). *)
+   All statements hold for every tree of type tbl (parsed, built or edited), without any
+   well-formedness hypothesis.  (Before finding F11 was repaired in /repo — `impl TableLike for
+   InlineTable` yielding `Item::None` placeholders — they needed "no inline table holds a
+   placeholder"; C20_placeholder_regression pins the repaired behaviour.) *)
 From TV Require Import Base.Prelude Model.Datetime Model.Numbers Model.Tree Model.Visit
   Spec.Nodes Proofs.VisitComplete.
 Require Import Sorted.
 
 (* the complete call log of the read-only default walk *)
-Theorem C20_visit : forall t, no_inline_placeholder t = true ->
-  visit_document t = expected_log t.
+Theorem C20_visit : forall t, visit_document t = expected_log t.
 Proof. exact visit_log. Qed.
 Print Assumptions C20_visit.
 
 (* the node-level hooks alone: one call of the matching hook per node, in document order *)
-Theorem C20_visit_hooks : forall t, no_inline_placeholder t = true ->
+Theorem C20_visit_hooks : forall t,
   filter is_node_hook (visit_document t) = map node_hook (nodes t).
 Proof. exact visit_hooks. Qed.
 Print Assumptions C20_visit_hooks.
 
 (* the default mutable walk makes the same calls and leaves the tree as it was *)
-Theorem C20_visit_mut : forall t, no_inline_placeholder t = true ->
+Theorem C20_visit_mut : forall t,
   fst (visit_document_mut hook_default t) = expected_log t
   /\ snd (visit_document_mut hook_default t) = t.
 Proof. exact visit_mut_default. Qed.
 Print Assumptions C20_visit_mut.
 
 (* overriding the scalar hooks: the tree left behind is the one in which exactly the scalars
-   were rewritten, and the walk made the same calls as the read-only one (no hypothesis) *)
+   were rewritten, and the walk made the same calls as the read-only one *)
 Theorem C20_rewrite : forall g t,
   snd (visit_document_mut g t) = map_scalars g t
   /\ fst (visit_document_mut g t) = visit_document t.
@@ -75,7 +73,7 @@ Print Assumptions C20_rewrite_scalar_list.
 (* exactly once: there is a duplicate-free list of positions, in document order, containing
    every position of the document, such that the node-level calls are, one for one, the
    matching hook on the node at each of these positions *)
-Theorem C20_once : forall t, no_inline_placeholder t = true ->
+Theorem C20_once : forall t,
   exists ps : list path,
     StronglySorted path_lt ps /\ NoDup ps
     /\ (forall p, In p ps <-> node_at t p <> None)
@@ -84,23 +82,11 @@ Theorem C20_once : forall t, no_inline_placeholder t = true ->
 Proof. exact visit_once. Qed.
 Print Assumptions C20_once.
 
-(* the hypothesis cannot be dropped: on `t = {}` after `doc["t"]["x"]` the walk calls
-   visit_table_like_kv("x", Item::None) — a call for something that is not a node *)
-Theorem C20_visit_placeholder_refuted :
-  exists t, no_inline_placeholder t = false
-            /\ filter is_node_hook (visit_document t) <> map node_hook (nodes t)
-            /\ In (MTableLikeKv, AKv (mkKey [x78] None decor_default decor_default) INone) (visit_document t).
-Proof. exact visit_placeholder_refuted. Qed.
-Print Assumptions C20_visit_placeholder_refuted.
-
-(* the hypothesis is satisfiable, also by documents with inline tables, and placeholders in
-   ordinary tables are harmless *)
-Example C20_hyp_inline :
-  no_inline_placeholder
-    (Tbl [(mkKey [x74] None decor_default decor_default,
-           IValue (VInline [(mkKey [x78] None decor_default decor_default,
-                             IValue (VScalar (SInt 1) None decor_default))]
-                           REmpty false false decor_default None));
-          (mkKey [x75] None decor_default decor_default, INone)]
-         decor_default false false None None) = true.
-Proof. reflexivity. Qed.
+(* F11 regression: on `t = {}` after `doc["t"]["x"]` (an Item::None placeholder inside the
+   inline table) no hook is called for the placeholder *)
+Theorem C20_placeholder_regression :
+  ~ In (MItem, AItem INone) (visit_document placeholder_witness)
+  /\ map fst (visit_document placeholder_witness)
+     = [MDocument; MTable; MTableLike; MTableLikeKv; MItem; MValue; MInlineTable; MTableLike].
+Proof. exact placeholder_not_visited. Qed.
+Print Assumptions C20_placeholder_regression.
